@@ -216,14 +216,14 @@ CHECKS = {
         "quick": [
             {"pkg": "v2", "entries": ["VerifC03Hunk"], "params": {"N": 2, "CTX": 2, "RM": 2, "AD": 1}},
             {"pkg": "v2", "entries": ["VerifC03Sub"], "params": {"N": 2}},
-            {"pkg": "v2", "entries": ["VerifC03SubObj"], "params": {"INNER": 1}},
+            {"pkg": "v2", "entries": ["VerifC03SubObj", "VerifC03ObjHunk"], "params": {"INNER": 1}},
         ],
         "thorough": [
             {"pkg": "v2", "entries": ["VerifC03Hunk"], "params": {"N": 3, "CTX": 2, "RM": 2, "AD": 2}},
             {"pkg": "v2", "entries": ["VerifC03Sub"], "params": {"N": 3}},
-            {"pkg": "v2", "entries": ["VerifC03SubObj"], "params": {"INNER": 2}},
+            {"pkg": "v2", "entries": ["VerifC03SubObj", "VerifC03ObjHunk"], "params": {"INNER": 2}},
         ],
-        "covers": ["c03.hunk.root", "c03.hunk.key", "c03.hunk.index", "c03.hunk.key-in-array", "c03.sub.root", "c03.sub.key", "c03.subobj"],
+        "covers": ["c03.hunk.root", "c03.hunk.key", "c03.hunk.index", "c03.hunk.key-in-array", "c03.sub.root", "c03.sub.key", "c03.subobj", "c03.objhunk.root", "c03.objhunk.key", "c03.objhunk.nested", "c03.objhunk.key-in-array"],
         "outside": "arrays longer than N, more than 2 context lines / removes / adds, index -1 (append sentinel), set/multiset and merge hunks (C08, C12)",
     },
     "C04": {
